@@ -688,3 +688,24 @@ def check_placeholder_match(ctx, g) -> None:
                "component name in two of its stages (ids are (stage, name) pairs, so this is legal) gets the instances of both "
                "components in 'represents' (':loopref' lists 2(k+1) paths) and 'latest' may point into the other stage" % missing,
                construct="%s <- depends on the placeholder's stage and name" % short(e, 60))
+
+    # every placeholder consumes its instances, also one that is skipped (already FINISHED/FAILED/SHUTDOWN): the caller treats the ids
+    # that are left over as "matched by no placeholder" and refuses to advance ANY loop
+    cfg = CFG(fn)
+    heads = [n for n in cfg.nodes if n.kind == "for" and n.ast is loop]
+    removals = [n for n in cfg.nodes if n.kind == "stmt" and n.ast is not None
+                and any(last_attr(c) in ("difference_update", "discard", "remove") for c in own_calls(n.ast))
+                and any(n.ast is x for st in loop.body for x in ast.walk(st))]
+    skips = [n for n in cfg.nodes if n.kind == "stmt" and isinstance(n.ast, ast.Continue) and any(n.ast is x for st in loop.body for x in ast.walk(st))]
+    if heads:
+        body_starts = [m for (m, lab) in heads[0].succ if lab == "iter"]
+        for sk in skips:
+            r = cfg.reach(body_starts, blocked=removals + heads)
+            ok = bool(removals) and sk.id not in r
+            ctx.ob(rule, sk.ast, ok,
+                   "a placeholder that is skipped has already taken its instances out of the remaining ids" if ok else
+                   "a placeholder is skipped (it is no longer RUNNING) before its instances are removed from the remaining looped ids: "
+                   "map_placeholders_to_looped_instances_of_components then finds ids that 'match no placeholder' and raises - after a "
+                   "restart has marked the placeholders of earlier stages FINISHED no other loop can be advanced",
+                   construct="continue <- instances removed first")
+
